@@ -50,6 +50,11 @@ fn cfg_kind(k: usize) -> (Cfg, &'static str) {
     (cfg, name)
 }
 
+/// occasionally a much deeper nesting (stack growth steps beyond the first few)
+fn deep(n: usize, t: &mut Tape) -> usize {
+    if t.chance(1, 6) { n * (2 + t.below(10)) } else { n }
+}
+
 pub fn decode(tape: &[u16]) -> Case {
     let mut t = Tape::new(tape);
     let prealloc = *t.pick(&[0usize, 0, 1, 64, 1024]);
@@ -61,8 +66,8 @@ pub fn decode(tape: &[u16]) -> Case {
         1 => (format!("<div x=\"{}\">tail", "v".repeat(n)).into_bytes(), cfg_kind(1).0, "long_attribute_value"),
         2 => (format!("<!-- {} -->x", "c".repeat(n)).into_bytes(), cfg_kind(3).0, "long_comment_captured"),
         3 => (format!("<{}>x", "t".repeat(n)).into_bytes(), cfg_kind(0).0, "long_tag_name_no_handlers"),
-        4 => ("<div x><span y>".repeat(1 + n / 8).into_bytes(), cfg_kind(4).0, "deep_nesting_attr_selector"),
-        5 => ("<div><span>".repeat(1 + n / 4).into_bytes(), cfg_kind(5).0, "deep_nesting_descendant_selector"),
+        4 => ("<div x><span y>".repeat(1 + deep(n, &mut t) / 8).into_bytes(), cfg_kind(4).0, "deep_nesting_attr_selector"),
+        5 => ("<div><span>".repeat(1 + deep(n, &mut t) / 4).into_bytes(), cfg_kind(5).0, "deep_nesting_descendant_selector"),
         6 => (format!("text {} <b>{}</b>", "\u{e9}".repeat(n), "z".repeat(n)).into_bytes(), cfg_kind(2).0, "long_text_captured"),
         7 => (format!("<!DOCTYPE {} PUBLI", "d".repeat(n)).into_bytes(), cfg_kind(6).0, "unterminated_doctype_lookahead"),
         8 => (format!("<p>{}</p><p><![CDATA[{}", "<i>".repeat(n / 6), "q".repeat(n)).into_bytes(), cfg_kind(6).0, "many_elements_all_observers"),
@@ -91,6 +96,55 @@ pub fn decode(tape: &[u16]) -> Case {
     limits.sort();
     limits.dedup();
     Case { input, cuts, cfg, family, limits }
+}
+
+/// Minimal limit under which `opens` never-closed elements of the family's shape are accepted
+/// (single write, nothing buffered), by bisection (monotonicity is checked by the sweep).
+fn min_limit_for(c: &Case, opens: usize, st: &mut Stats) -> Option<usize> {
+    let unit: &[u8] = if c.family == "deep_nesting_attr_selector" { b"<div x>" } else { b"<div>" };
+    let doc = unit.repeat(opens);
+    let ok = |m: usize, st: &mut Stats| {
+        let mut f = c.cfg.clone();
+        f.max_mem = m;
+        st.eval();
+        run(&[&doc[..]], &f).result.is_ok()
+    };
+    let (mut lo, mut hi) = (c.cfg.prealloc, 1usize << 22);
+    if !ok(hi, st) {
+        return None;
+    }
+    if ok(lo, st) {
+        return Some(lo);
+    }
+    // invariant: !ok(lo), ok(hi)
+    while hi - lo > 1 {
+        let mid = lo + (hi - lo) / 2;
+        if ok(mid, st) { hi = mid } else { lo = mid }
+    }
+    Some(hi)
+}
+
+thread_local! {
+    static STACK_COST: std::cell::RefCell<std::collections::HashMap<String, (usize, usize)>> = Default::default();
+}
+
+/// (bytes per open element, fixed bytes), derived from the limits needed for 1 and for 9 open
+/// elements: the stack grows in steps, L(1) = fixed + g*S and L(9) = fixed + 2g*S for the
+/// first growth step g (8 today), so S >= (L(9)-L(1))/8 whenever g <= 8; (0,0) if no step is seen.
+fn stack_item_cost(c: &Case, st: &mut Stats) -> (usize, usize) {
+    let key = format!("{}|{}", c.family, c.cfg.to_json());
+    if let Some(v) = STACK_COST.with(|m| m.borrow().get(&key).copied()) {
+        return v;
+    }
+    let v = match (min_limit_for(c, 1, st), min_limit_for(c, 9, st)) {
+        (Some(l1), Some(l9)) if l9 > l1 => {
+            let s = (l9 - l1) / 8;
+            (s, l1.saturating_sub(8 * s))
+        }
+        _ => (0, 0),
+    };
+    STACK_COST.with(|m| m.borrow_mut().insert(key, v));
+    v
 }
 
 pub fn check_case(c: &Case, st: &mut Stats) -> PResult {
@@ -123,6 +177,11 @@ pub fn check_case(c: &Case, st: &mut Stats) -> PResult {
                 if c.family.starts_with("deep_nesting") {
                     let open = c.input.iter().filter(|b| **b == b'<').count();
                     ensure!(open * 16 <= m, "C10: {open} elements are open under a selector set but the run succeeded with a memory limit of only {m} bytes (bookkeeping not limited)");
+                    // self-calibrated linear bound: the per-element cost S and the fixed cost c are
+                    // measured on the same configuration with 1 and 9 open elements
+                    let (s_item, fixed) = stack_item_cost(c, st);
+                    st.label_if(s_item > 16, "stack_cost_calibrated");
+                    ensure!(fixed + open * s_item <= m, "C10: {open} elements are open under a selector set but the run succeeded with a memory limit of {m} bytes; the same configuration needs {fixed} + {s_item} bytes per open element for its first 16 elements (open-element bookkeeping grows without being charged)");
                 }
                 if first_ok.is_none() {
                     first_ok = Some(m);
@@ -182,7 +241,7 @@ impl Prop for C10 {
         "fault_enumeration"
     }
     fn rule(&self) -> String {
-        "case = (growth-targeted input family [unterminated tag/attribute/comment/doctype under capturing handlers, long tag name without handlers, deep nesting with attribute/descendant selectors, long captured text, many elements] or soup, handler configuration, preallocation p in {0,1,64,1024} held FIXED across the sweep, schedule); the limit M is swept over every value p..p+96, a dense window around the input length and a geometric continuation beyond the need; oracle per M: result is Ok or MemoryLimitExceeded (never a panic/other error); after every successful call accounted usage (hook) <= M and retained bytes_in-bytes_out <= accounted; Ok => output and events identical to the unlimited run; success under M => success under every larger M; two identical runs agree on the failing call. non-trivial = the sweep contains both a failing and a succeeding limit; evaluations = rewriter runs".into()
+        "case = (growth-targeted input family [unterminated tag/attribute/comment/doctype under capturing handlers, long tag name without handlers, deep nesting with attribute/descendant selectors, long captured text, many elements] or soup, handler configuration, preallocation p in {0,1,64,1024} held FIXED across the sweep, schedule); the limit M is swept over every value p..p+96, a dense window around the input length and a geometric continuation beyond the need; oracle per M: result is Ok or MemoryLimitExceeded (never a panic/other error); after every successful call accounted usage (hook) <= M and retained bytes_in-bytes_out <= accounted; Ok => output and events identical to the unlimited run; success under M => success under every larger M; two identical runs agree on the failing call; for the deep-nesting families a run with k open elements may only succeed when M >= c + k*S, where the per-element cost S and fixed cost c are measured on the same configuration by bisecting the minimal limit for 1 and for 9 open elements (open-element bookkeeping is charged linearly, not only for its first growth steps). non-trivial = the sweep contains both a failing and a succeeding limit; evaluations = rewriter runs".into()
     }
     fn assumptions(&self) -> Vec<String> {
         vec!["documented precondition preallocated_parsing_buffer_size <= max_allowed_memory_usage is respected".into(), "accounted usage read through the _verif_hooks accessor".into(), "with a text handler the streaming decoder may hold <= 3 bytes of one split character outside the accounted buffers (constant-size codec state)".into(), "the tree-builder simulator's namespace stack is not accounted by the limiter (not observable, see DESIGN section 7)".into()]
